@@ -279,6 +279,19 @@ func writeHeaderFile(env *dsl.Environment, options packaging.CppCodegenOptions) 
 	return iocommon.WriteFileIfNeeded(filePath, b.Bytes(), 0644)
 }
 
+// Whether the writer may leave the field out of the JSON object: its type has a null case,
+// or it is a type parameter, which can be given a type with a null case.
+func fieldCanBeOmitted(field *dsl.Field) bool {
+	switch t := dsl.GetUnderlyingType(field.Type).(type) {
+	case *dsl.GeneralizedType:
+		return t.Dimensionality == nil && t.Cases.HasNullOption()
+	case *dsl.SimpleType:
+		_, isTypeParameter := t.ResolvedDefinition.(*dsl.GenericTypeParameter)
+		return isTypeParameter
+	}
+	return false
+}
+
 func writeRecordConverters(w *formatting.IndentedWriter, t *dsl.RecordDefinition) {
 	typeName := common.TypeDefinitionSyntax(t)
 	typeParameters := t.GetDefinitionMeta().TypeParameters
@@ -316,7 +329,7 @@ func writeRecordConverters(w *formatting.IndentedWriter, t *dsl.RecordDefinition
 			w.Indented(func() {
 				fmt.Fprintf(w, "it->get_to(value.%s);\n", common.FieldIdentifierName(field.Name))
 			})
-			if gt, ok := dsl.GetUnderlyingType(field.Type).(*dsl.GeneralizedType); ok && gt.Dimensionality == nil && gt.Cases.HasNullOption() {
+			if fieldCanBeOmitted(field) {
 				// The writer omits this field when it is null: reset the destination, which may be a reused object.
 				w.WriteStringln("} else {")
 				w.Indented(func() {
